@@ -153,7 +153,7 @@ def match_known(pid, violation, known):
 # ---------------------------------------------------------------------------
 # minimisation
 
-def minimise(mod, plan, sig, budget_s=90.0, log=None):
+def minimise(mod, plan, sig, budget_s=40.0, log=None):
     deadline = time.time() + budget_s
     best = plan
     tried = 0
